@@ -306,3 +306,63 @@ class SpecTheory:
         if cname == "UnionSpecifier":
             return self.sym_union(name)
         return Obj(self.index.cls(cname))
+
+
+# ---------------------------------------------------------------- counter-model extraction
+def _ev(m, t):
+    return m.eval(t, model_completion=True)
+
+
+def _num(x):
+    x = z3.simplify(x)
+    if z3.is_rational_value(x):
+        return [x.numerator_as_long(), x.denominator_as_long()]
+    if z3.is_algebraic_value(x):
+        a = x.approx(10)
+        return [a.numerator_as_long(), a.denominator_as_long()]
+    return [0, 1]
+
+
+def model_range(m, t):
+    hmin, hmax = z3.is_true(_ev(m, R.hmin(t))), z3.is_true(_ev(m, R.hmax(t)))
+    return {"cls": "RangeSpecifier", "min": _num(_ev(m, R.mn(t))) if hmin else None, "max": _num(_ev(m, R.mx(t))) if hmax else None,
+            "include_min": z3.is_true(_ev(m, R.imin(t))), "include_max": z3.is_true(_ev(m, R.imax(t)))}
+
+
+def model_value(m, v, max_len=8):
+    """JSON description of a specifier value under model m (used to replay on the real code)."""
+    if v is NOTIMPL:
+        return {"cls": "NotImplemented"}
+    if isinstance(v, SymObj):
+        t = v.term
+        for c in SpecShape.CLASSES:
+            if z3.is_true(_ev(m, v.shape.tester(t, c))):
+                return model_value(m, v.shape.dec_as(t, c), max_len)
+        return {"cls": "?"}
+    if isinstance(v, Obj):
+        n = v.cls.name
+        if n == "RangeSpecifier":
+            return model_range(m, rterm(v))
+        if n == "UnionSpecifier":
+            rs = v.fields["ranges"]
+            if isinstance(rs, AList):
+                ln = _ev(m, rs.n)
+                ln = ln.as_long() if z3.is_int_value(ln) else 0
+                items = [model_range(m, z3.Select(rs.arr, i)) for i in range(max(0, min(ln, max_len)))]
+                return {"cls": "UnionSpecifier", "len": ln, "ranges": items}
+            return {"cls": "UnionSpecifier", "len": len(rs), "ranges": [model_range(m, rterm(r)) for r in rs]}
+        return {"cls": n}
+    if z3.is_expr(v):
+        return {"term": str(_ev(m, v))}
+    return {"py": repr(v)}
+
+
+def describe_args(names):
+    def describe(m, args, result=None):
+        out = {"ghost_v": _num(_ev(m, V))}
+        for n, a in zip(names, args or []):
+            out[n] = model_value(m, a)
+        if result is not None:
+            out["result_in_model"] = model_value(m, result)
+        return out
+    return describe
